@@ -93,7 +93,11 @@ class Ctx(object):
         return bool(cond)
 
     # ---- memory ---------------------------------------------------------
+    fill_alt = False
+
     def buf(self, n, fill=0xA5):
+        if self.fill_alt and fill == 0xA5:
+            fill = 0x5A          # the other poison pattern (see C18: outputs must not depend on what the buffers held before)
         return capi.GBuf(self.shim, n, fill=fill)
 
     def inbuf(self, data):
